@@ -292,7 +292,7 @@ def cm_oracle(nd):
 def main():
     chk = C.Check('C19', level='model_checking')
     quick = chk.tier == 'quick'
-    chk.bounds.append('E3: render: domain/image <= %d/%d nodes, <= %d indices (all degree sequences); composite render 2x2x2 nodes; colouring/CM <= %s nodes; permutations n <= %s; all index values symbolic 64-bit' % ((2, 2, 3, 3, 3) if quick else (3, 3, 4, 4, 4)))
+    chk.bounds.append('E3: render: domain/image <= %d/%d nodes, <= %d indices (all degree sequences); composite render 2x2x2 nodes; colouring/CM <= %s nodes (quick: plus four 4-node multi-component profiles for CM); permutations n <= %s; all index values symbolic 64-bit' % ((2, 2, 3, 3, 3) if quick else (3, 3, 4, 4, 4)))
     chk.assume('colouring and Cuthill-McKee are checked on symmetric adjacency relations (their documented input)', 'allocation failure is out of scope (operator new never fails)', 'exceptions / XASSERT / XABORT are modelled as abort paths: an abort on valid input is a violation')
     bdir = C.mkdir(os.path.join(C.BUILD, 'C19'))
     wrapper = os.path.join(C.VERIF, 'wrappers', 'c19_adj.cpp')
@@ -368,6 +368,19 @@ def main():
                                 continue
                             inp = {'nd': nd, 'nidx': nx, 'dp': dp, 'ii': ii, 'reverse': rev, 'rtype': rtype, 'stype': stype, 'operm': nd, 'olayers': nd + 2, 'onlayers': 1}
                             jobs.append(('cuthill-mckee nd=%d profile=%s rev=%d root=%d sort=%d' % (nd, dp, rev, rtype, stype), 'w_cuthill_mckee', inp, base, cm_oracle(nd), {}))
+    if quick:
+        # a few 4-node profiles with more than one component (degree sequences 2,1,1,0 and 1,1,1,1 and 2,1,1,0 permuted): Cuthill-McKee only
+        for dp in ([0, 2, 3, 4, 4], [0, 1, 2, 3, 4], [0, 0, 2, 3, 4], [0, 1, 3, 4, 4]):
+            nd, nx = 4, dp[-1]
+            ii = [z3.BitVec('ii%d' % k, 64) for k in range(nx)]
+            base = [z3.ULT(v, nd) for v in ii] + symmetric_constraints(dp, ii, nd)
+            s0 = z3.Solver(); s0.add(*base)
+            if s0.check() != z3.sat:
+                continue
+            for rev in (0, 1):
+                for rtype in (0, 1, 2):
+                    inp = {'nd': nd, 'nidx': nx, 'dp': dp, 'ii': ii, 'reverse': rev, 'rtype': rtype, 'stype': rtype, 'operm': nd, 'olayers': nd + 2, 'onlayers': 1}
+                    jobs.append(('cuthill-mckee nd=%d profile=%s rev=%d root=%d sort=%d' % (nd, dp, rev, rtype, rtype), 'w_cuthill_mckee', inp, base, cm_oracle(nd), {}))
     return e3run.run_jobs(chk, mod, native, jobs, info, quick, SIGS, 'c19')
 
 
